@@ -148,6 +148,25 @@ struct Ratio {
   }
 };
 
+
+// ---- wrapped_compact_theta_sketch view (family thetawrap): getters and the lazy iterator ----
+// R = 1, is_empty, is_ordered, seed_hash, theta64, num_retained, entries in ITERATION order. The image lives in an exact-size
+// heap buffer so that any read past it is caught by ASan. The entries are collected twice: pre-increment with operator*, and
+// post-increment (a copy of the iterator state) with operator->; a disagreement is reported as R -9.
+static void dump_wrapped(const uint8_t* bytes, size_t n, uint64_t seed, Out& o) {
+  std::unique_ptr<uint8_t[]> buf(new uint8_t[n ? n : 1]);
+  for (size_t i = 0; i < n; ++i) buf[i] = bytes[i];
+  auto w = wrapped_compact_theta_sketch::wrap(buf.get(), n, seed);
+  std::vector<uint64_t> v1, v2;
+  for (auto it = w.begin(); it != w.end(); ++it) v1.push_back(*it);
+  { auto it = w.begin(); while (!(it == w.end())) { auto cp = it++; v2.push_back(*cp.operator->()); } }
+  if (v1 != v2) { o.R(-9); return; }
+  o.R(1); o.R(w.is_empty() ? 1 : 0); o.R(w.is_ordered() ? 1 : 0); o.R((I)w.get_seed_hash()); o.R((I)w.get_theta64());
+  o.R((I)w.get_num_retained());
+  for (uint64_t x : v1) o.R((I)x);
+  o.F(w.is_estimation_mode() ? 1 : 0); o.Fd(w.get_estimate());
+}
+
 static void builder_args(const Line& t) {
   I lgk = t.at(2), rf = t.at(3), pb = t.at(4);
   if (lgk < 0 || lgk > 255 || rf < 0 || rf > 3 || pb < 0) throw std::invalid_argument("bad builder argument");
@@ -242,6 +261,16 @@ static void handler(const Line& t, Out& o) {
   case 40: { Jaccard f{o, (uint64_t)t.at(1)}; present2(get_sketch(t.at(2)), t.at(3), get_sketch(t.at(4)), t.at(5), f); break; }
   case 41: { ExactlyEqual f{o, (uint64_t)t.at(1)}; present2(get_sketch(t.at(2)), t.at(3), get_sketch(t.at(4)), t.at(5), f); break; }
   case 42: { Ratio f{o}; present2(get_sketch(t.at(1)), t.at(2), get_sketch(t.at(3)), t.at(4), f); break; }
+  case 50: { // compressed seed byte* : deserialize the given (v3) image, serialize / serialize_compressed, wrap, dump
+    std::vector<uint8_t> img; for (size_t i = 3; i < t.size(); ++i) img.push_back((uint8_t)t[i]);
+    compact_theta_sketch c = compact_theta_sketch::deserialize(img.data(), img.size(), (uint64_t)t.at(2));
+    auto bytes = t.at(1) != 0 ? c.serialize_compressed() : c.serialize();
+    dump_wrapped(bytes.data(), bytes.size(), (uint64_t)t.at(2), o);
+    break; }
+  case 51: { // seed byte* : wrap the given image, dump
+    std::vector<uint8_t> img; for (size_t i = 2; i < t.size(); ++i) img.push_back((uint8_t)t[i]);
+    dump_wrapped(img.data(), img.size(), (uint64_t)t.at(1), o);
+    break; }
   default: o.R(-2);
   }
 }
